@@ -291,6 +291,7 @@ def _fields(res):
 def search(rep: C.Report, tier: str, broken):
     """real LTE end-to-end runs: bracketed zero, window, fields of the converged solution, history independence."""
     from WallGo.containers import WallParams
+    _manager_histories(rep, tier)
     cases = [("toy1", {})] if tier == "quick" else [("toy1", {}), ("toy1", dict(E=0.07, lam=0.12)), ("toy2c", {})]
     for kind, params in cases:
         o = EC.make_eom(kind, params, M=30, key=("C01", kind, str(params)))
@@ -352,3 +353,62 @@ def search(rep: C.Report, tier: str, broken):
             if _fields(again) != base:
                 rep.violation(f"repeating solveWall after history '{name}' returns a different result",
                               dict(info, history=name, velocity_again=again.wallVelocity, success_again=again.success), finding_key=f"C01:history:{name}")
+
+
+def _manager_histories(rep: C.Report, tier: str):
+    """WallGoManager level: the result is a function of the model and the settings only (fresh WallSolver per call)."""
+    import manager_common as MC
+    from WallGo.containers import WallParams
+    r = C.rng("C01manager")
+    configs = [(20, 1e-2), (30, 1e-4)] if tier == "quick" else [(20, 1e-2), (30, 1e-4), (24, 1e-3), (36, 3e-4)]
+    fresh = {}
+    for cfg in configs:
+        fresh[cfg] = MC.new_manager(*cfg).solveWall(MC.settings())
+        rep.count("manager fresh solves")
+    for Tn2 in ((1.12,) if tier == "quick" else (1.12, 1.18)):
+        m = MC.new_manager(*configs[0])
+        seq = list(configs) + [configs[0]]
+        if tier == "thorough":
+            seq += [r.choice(configs) for _ in range(3)]
+        prev = None
+        for step, cfg in enumerate(seq):
+            m.config.configGrid.spatialGridSize, m.config.configEOM.errTol = cfg
+            between = r.choice(("lte", "other-point", "none", "detonation")) if step else "none"
+            try:
+                if between == "lte":
+                    m.wallSpeedLTE()
+                elif between == "other-point":            # previous benchmark point on the same manager, then back
+                    MC.setup(m, Tn2)
+                    m.solveWall(MC.settings())
+                    MC.setup(m, 1.15)
+                elif between == "detonation":
+                    m.solveWallDetonation(MC.settings(), onlySmallest=True)
+            except Exception:  # noqa: BLE001
+                pass
+            got = m.solveWall(MC.settings())
+            ref = fresh[cfg]
+            rep.case(key=("manager-history", cfg, between, step))
+            rep.count("manager history solves")
+            info = {"model": "toy1 via WallGoManager (harness/manager_common.py)", "history": [list(c) for c in seq[:step + 1]], "between": between,
+                    "config(spatialGridSize, errTol)": list(cfg), "velocity_on_reused_manager": got.wallVelocity, "velocity_fresh_manager": ref.wallVelocity,
+                    "profile_points": len(np.asarray(got.temperatureProfile)), "expected_profile_points": cfg[0] + 1}
+            same = (got.success == ref.success and got.solutionType == ref.solutionType and got.wallVelocity is not None and ref.wallVelocity is not None
+                    and abs(got.wallVelocity - ref.wallVelocity) <= 1e-12 and abs(got.temperaturePlus - ref.temperaturePlus) <= 1e-10
+                    and np.asarray(got.temperatureProfile).shape == np.asarray(ref.temperatureProfile).shape
+                    and np.allclose(got.wallWidths, ref.wallWidths, rtol=0, atol=1e-10))
+            if not same:
+                rep.violation("solveWall on a manager with a history returns a different result than a fresh manager with the same model and settings",
+                              info, finding_key="C01:manager-history")
+                continue
+            # bracketed zero within the CONFIGURED tolerance, on the solver the manager builds for these settings
+            if got.success and step in (1, len(seq) - 1):
+                eom = m.setupWallSolver(MC.settings()).eom
+                v = got.wallVelocity
+                wp = WallParams(widths=np.array(got.wallWidths), offsets=np.array(got.wallOffsets))
+                hy = m.hydrodynamics
+                vmax = min(hy.vJ, hy.fastestDeflag())
+                pl, ph = eom.wallPressure(max(v - 3 * cfg[1], hy.vMin), wp)[0], eom.wallPressure(min(v + 3 * cfg[1], vmax), wp)[0]
+                info.update(window=[hy.vMin, vmax])
+                if not pl < 0 < ph:
+                    rep.violation("total pressure does not change sign within 3*errTol (configured) of the velocity reported by the manager",
+                                  dict(info, pressure_below=float(pl), pressure_above=float(ph)), finding_key="C01:manager-sign-change")
